@@ -217,6 +217,15 @@ theorem crashStates_sub_outcomes (prog : Prog π) :
       simp only [outcomes, List.mem_cons, List.mem_append]
       right; right; right; exact hr
 
+theorem crashPoints_states (ops : List (SysOp π)) :
+    ∀ (fs : Fs π) (i : Nat), (crashPoints fs i ops).map (·.2.2) = crashStates fs ops := by
+  induction ops with
+  | nil => intro fs i; rfl
+  | cons op rest ih =>
+    intro fs i
+    simp only [crashPoints, crashStates, List.map_cons, List.map_append, ih]
+    cases op <;> simp [partials, cuts]
+
 /-! ### the planned-fault run is one of the outcomes -/
 
 theorem failAt_mem_failStates (fs : Fs π) (op : SysOp π) (k : Nat)
